@@ -109,5 +109,7 @@ Apply(op, cfg, st, name, arg) ==
     [] op = "remove_trait" -> RemoveTrait(cfg, st, name)
     \* type(obj).add_class_trait("f_" | "fo_", ...) at run time (only for a prefix the classes do not declare)
     [] op = "add_wild" -> Out([st EXCEPT !.dyn = @ \cup {PrefixOf(arg)}], "ok")
+    \* obj.on_trait_change(h, name) followed by its removal: registering and unregistering a handler governs nothing
+    [] op = "listen" -> Out(st, "ok")
 St0 == [itrait |-> "none", stored |-> "unset", cpol |-> "none", dyn |-> {}]
 =============================================================================
